@@ -126,7 +126,10 @@ EXTRA = {
             ("SafeC.Norm.jamo_ucd_stable", "SafeC.Proofs.NormIdemTables", "table", "UCD 14.0: the conjoining jamo L, V, T have no decomposition"),
             ("SafeC.Norm.composeGo_roundtrip", "SafeC.Proofs.NormIdem", "lemma", "invariant of the streaming composition (last starter, pre_cc, pending marks), every state: whatever it outputs from here decomposes and reorders to the same string as dec(starter) ++ pending ++ rest"),
             ("SafeC.Norm.ucd_fullDecomp_stable", "SafeC.Proofs.NormIdemTables", "lemma", "whatever the reference expansion produces for ANY cell value is not expanded further"),
-            ("SafeC.Fold.fcLoop_spec", "SafeC.Proofs.FoldStr", "lemma", "the loop of wcsfc_s for every string and every dmax: each iteration emits fcCell(cp, next), the loop as a whole fcPure, with the exact conditions for too_small / overrun"),
+            ("SafeC.Fold.fcLoop_spec", "SafeC.Proofs.FoldStr", "lemma", "the loop of wcsfc_s for every string and every dmax, as is and with the room check of the multi-character branch: each iteration emits fcCell(cp, next), the loop as a whole fcPure, with the exact conditions for too_small / overrun; with the room check no overrun at all"),
+            ("SafeC.Fold.tbl_room4", "SafeC.Proofs.FoldStr", "table", "every tbl2 / tbl3 entry of towfc_s (regenerated tables) has at most 4 cells, also after each cell has been canonically decomposed: what `dmax < 5` in the multi-character branch of wcsfc_s has to cover"),
+            ("SafeC.Fold.fcLoop_cstr", "SafeC.Proofs.FoldRoom", "lemma", "the loop of wcsfc_s reads its source as a C string: cells behind the first 0 do not influence the outcome"),
+            ("SafeC.Fold.wcsfcS_room", "SafeC.Proofs.FoldRoom", "lemma", "range check + room check: no store behind dest + dmax and no table index out of bounds for every cell list (embedded terminators allowed) and every dmax"),
             ("SafeC.Fold.hot_single_le", "SafeC.Proofs.FoldStr", "table", "_towfc_single maps every code point of the hot ranges to a code point (outside them it is the identity): what wcsfc_s hands to _decomp_s is a valid table index"),
             ("SafeC.Fold.fold_announce_exceptions", "SafeC.Proofs.FoldCount", "full", "each of the 748 listed code points really disagrees (announces 0 but folds / announces 1 but unchanged): the exception lists of fold_announce_partial are tight"),
             ("SafeC.Fold.tables_lit", "SafeC.Proofs.FoldCount", "table", "the written-out copies of casemaps / pairs / casemapsl used by the fold proofs equal the generated tables")],
